@@ -99,9 +99,27 @@ func joinOps(ops []string) string {
 	return out
 }
 
+// genWrap: the cap on the file store with a FULL mailbox whose deliveries straddle the wrap of the
+// id counter within one second (arrival order is not id order; planted, see sd/wrap.go): the next
+// deliveries must evict the oldest ARRIVALS.
+func genWrap(g *vh.Gen) {
+	for i := 0; i < g.N(16, 300); i++ {
+		capN := 2 + g.Intn(4)
+		tail := []string{"l0"}
+		date := 1600002000
+		for k := 0; k < 1+g.Intn(capN+1); k++ {
+			date += 7
+			tail = append(tail, "a0:"+vh.I(date)+":"+vh.I(150+50*g.Intn(5)), "l0", "g0:l", "g0:k0", "g0:k"+vh.I(capN-1))
+		}
+		tail = append(tail, "v")
+		sd.EmitHistory(g, []string{"file"}, "direct@wrap"+vh.I(capN), capN, 0, []string{"wrapbox", "other"}, sd.WrapHistory(g, capN, tail))
+	}
+}
+
 func genAll(g *vh.Gen) {
 	gen(g)
 	genBoth(g)
+	genWrap(g)
 }
 
 func main() { vh.Main(genAll, sd.Exec) }
